@@ -19,7 +19,70 @@ pub struct Input {
     pub enc: Option<Encoded>,
 }
 
-pub const CLASSES: &[&str] = &["canonical", "dialect", "mutant", "truncated", "long_field", "arbitrary", "header_shaped"];
+pub const CLASSES: &[&str] = &["canonical", "dialect", "mutant", "truncated", "long_field", "arbitrary", "header_shaped", "near_max_unterminated"];
+
+/// A verbose message of (nearly) the largest declarable length made of k equally long string
+/// arguments (plus a raw filler), with every string terminator replaced by a letter: the parser
+/// returns strings that fill their declared size, the writer adds a terminator to each, so the
+/// re-serialised payload is k bytes longer than what the 16-bit length field can express.
+fn near_max_unterminated(r: &mut Rng) -> (Message, Encoded, Vec<u8>) {
+    use dlt_core::dlt::*;
+    let mut o = GenOpts::near_max(r);
+    o.force_kind = Some(crate::gen_msg::PKind::Verbose);
+    let mut m = gen_msg(r, &o);
+    let hdr = crate::refcodec::headers_len(crate::refcodec::htyp_of(&m.header));
+    let max_payload = o.max_total - hdr;
+    let k = r.range(8, 60) as usize;
+    let with_name = r.chance(1, 3);
+    let name_len = if with_name { r.range(1, 30) as usize } else { 0 };
+    let per_overhead = 4 + 2 + 1 + if with_name { 2 + name_len + 1 } else { 0 };
+    let l = (max_payload / k).saturating_sub(per_overhead);
+    let mut args = vec![];
+    for _ in 0..k {
+        let text: String = (0..l).map(|_| (b'a' + r.below(26) as u8) as char).collect();
+        args.push(Argument {
+            type_info: TypeInfo {
+                kind: TypeInfoKind::StringType,
+                coding: if r.chance(1, 2) { StringCoding::UTF8 } else { StringCoding::ASCII },
+                has_variable_info: with_name,
+                has_trace_info: false,
+            },
+            name: if with_name { Some((0..name_len).map(|_| 'n').collect()) } else { None },
+            unit: None,
+            fixed_point: None,
+            value: Value::StringVal(text),
+        });
+    }
+    let used: usize = args.iter().map(crate::gen_msg::arg_size).sum();
+    let left = max_payload - used;
+    if left >= 6 && args.len() < 255 {
+        args.push(Argument {
+            type_info: TypeInfo {
+                kind: TypeInfoKind::Raw,
+                coding: StringCoding::ASCII,
+                has_variable_info: false,
+                has_trace_info: false,
+            },
+            name: None,
+            unit: None,
+            fixed_point: None,
+            value: Value::Raw(r.bytes(left - 6)),
+        });
+    }
+    if let Some(x) = m.extended_header.as_mut() {
+        x.argument_count = args.len() as u8;
+    }
+    m.payload = PayloadContent::Verbose(args);
+    m.header.payload_length = crate::gen_msg::payload_size(&m.payload) as u16;
+    let e = ref_encode(&m);
+    let mut b = e.bytes.clone();
+    for f in e.fields.iter().filter(|f| f.label == "arg.value" || f.label == "arg.name") {
+        if f.end > f.start && b[f.end - 1] == 0 && (f.label == "arg.value" || r.chance(1, 2)) {
+            b[f.end - 1] = b'x';
+        }
+    }
+    (m, e, b)
+}
 
 fn base_msg(r: &mut Rng, light: bool, sys: Option<u64>) -> Message {
     if let Some(i) = sys {
@@ -138,7 +201,7 @@ pub fn apply_dialect(r: &mut Rng, e: &Encoded, b: &mut [u8]) -> Vec<&'static str
 
 /// one input of the given class (index into CLASSES) or a random class
 pub fn gen_input(r: &mut Rng, class: Option<usize>, light: bool, sys: Option<u64>) -> Input {
-    let c = class.unwrap_or_else(|| match r.below(20) {
+    let c = class.unwrap_or_else(|| if !light && r.chance(1, 80) { 7 } else { match r.below(20) {
         0..=3 => 0,
         4..=6 => 1,
         7..=13 => 2,
@@ -146,8 +209,19 @@ pub fn gen_input(r: &mut Rng, class: Option<usize>, light: bool, sys: Option<u64
         16 => 4,
         17 => 5,
         _ => 6,
-    });
+    }});
     match c {
+        7 => {
+            let (m, e, bytes) = near_max_unterminated(r);
+            Input {
+                wsh: m.storage_header.is_some(),
+                bytes,
+                class: "near_max_unterminated",
+                ops: vec![],
+                base: Some(m),
+                enc: Some(e),
+            }
+        }
         5 => {
             let n = r.size(24, if light { 64 } else { 600 });
             let mut bytes = r.bytes(n);
